@@ -9,8 +9,9 @@
      * NormalizeComponentsUnitVariance: output mean 0 and variance 1 (with and without zeroMean), constant
        features are sent to 0 (variance 0 <=> constant)                               [C15_unit_variance_*]
      * NormalizeComponentsUnitInterval (model ui_params = what the property asks for): all outputs in [0,1],
-       0 and 1 are attained for a non-constant feature, a constant feature goes to 1/2.  The parameters AS CODED
-       in the pinned tree (ui_params_coded) agree for non-constant features and send a constant c to 1/2 - c
+       0 and 1 are attained for a non-constant feature, a constant feature goes to 1/2 (this is what the C++
+       computes since the repair d1f9a025).  REGRESSION WITNESS: the parameters as coded BEFORE that repair
+       (ui_params_coded, not the current code) agree for non-constant features and sent a constant c to 1/2 - c
        (finding F17)                                                                   [C15_unit_interval_*, C15_F17_*]
      * LinearRegression: beta solves the assembled system  <=>  the gradient of the regularised squared error
        vanishes at beta; and then (lambda >= 0) beta is a global minimiser             [C15_linreg_*]
@@ -22,6 +23,11 @@
    symmetric eigen-decomposition and semi-definite solver - and is evaluated on every returned result by the check):
      * whitening / ZCA / whitened PCA: if W C W^T = tv I (which follows from orthonormal eigenpairs,
        C15_whitening_contract_from_eigen) the outputs have mean 0 and covariance tv I  [C15_whitening_identity_partial]
+     * ZCA on rank-deficient data (repair 2b5526e7: only the k directions with positive variance are rescaled):
+       output mean 0 and covariance tv * P with P = V_k V_k^T symmetric and idempotent (the orthogonal projector
+       onto the span of these directions), and P C = C when the other eigenvalues vanish (P projects onto the range
+       of the covariance); for k = d this is the whitening identity      [C15_zca_rank_deficient_projector_partial,
+                                                                          C15_zca_projector_fixes_range_partial]
      * PCA: for orthonormal directions the encoder-decoder pair is idempotent, reproduces the codes and its
        residual is orthogonal to every direction (= orthogonal projection); the variance of a code is its
        eigenvalue                                                                      [C15_pca_*]
@@ -30,12 +36,15 @@
    ONLY COMPARED / MONITORED by tools/c15.py (not proved): floating-point rounding; that the eigen-decomposition /
    solver fulfil their contract (evaluated exactly on the returned parameters: gradient, output mean/covariance,
    Gram matrix, eigen-equation and solver residuals); "non-increasing variances"; the small-sample branch of
-   PCA::setData; FisherLDA; ZCA on rank-deficient data; exceptions on inputs outside the preconditions.
+   PCA::setData; FisherLDA; exceptions on inputs outside the preconditions.
+   OPEN FINDINGS reported by the check under stable keys (see known_findings.json): FisherLDA::train:criterion
+   (symmetric eigen-decomposition of the non-symmetric Sw^-1 Sb), LDA::train(weighted):solve:singular (one-pass
+   covariance: cancellation noise taken for a pivot when the pooled covariance is singular and lambda = 0).
    FULL-STRENGTH statements not proved: "PCA::setData returns orthonormal eigenvectors with non-increasing
    eigenvalues for every dataset" and "LDA returns z_c = C^+ m_c for every (singular) C" would need a verified
    eigen-solver. *)
 From Coq Require Import List Arith Bool QArith Lia Lqa.
-From SharkV Require Import ListAux C03Model C15Model C15Aux C15Proofs C15ProofsLin.
+From SharkV Require Import ListAux C03Model C15Model C15Aux C15Proofs C15ProofsLin C15ProofsZca.
 Import ListNotations.
 Open Scope Q_scope.
 
@@ -90,7 +99,8 @@ Theorem C15_unit_interval_correct : forall (X : Type) (f : X -> Q) (x0 : X) (l :
 Proof. exact @unit_interval_correct. Qed.
 Print Assumptions C15_unit_interval_correct.
 
-(* the parameters as coded in the pinned tree: identical for non-constant features, 1/2 - c for a constant c (F17) *)
+(* REGRESSION WITNESS (describes the code BEFORE the repair d1f9a025, not the current tree): the parameters as they
+   were coded: identical for non-constant features, 1/2 - c for a constant c (finding F17) *)
 Theorem C15_F17_coded_unit_interval : forall mn mx c : Q,
   (~ mn == mx -> ui_params_coded mn mx = ui_params mn mx) /\
   affine (ui_params_coded c c) c == (1 # 2) - c.
@@ -165,6 +175,41 @@ Example whitening_hyp_satisfiable :
 Proof.
   cbv zeta. split; [vm_compute; discriminate|].
   intros a c Ha Hc. destruct a as [|[|a]]; destruct c as [|[|c]]; try lia; vm_compute; reflexivity.
+Qed.
+
+(* ---- ZCA on rank-deficient data ---- *)
+(* FULL statement (not proved): for every dataset NormalizeComponentsZCA returns a model whose output covariance is
+   tv times the orthogonal projector onto the range of the covariance.  Proved: the same, given orthonormal
+   eigenpairs (v_i, ev_i), i < k, of the covariance with ev_i = s_i^2 <> 0 (contract of the eigen-decomposition),
+   for the matrix W = sqrt(tv) sum_{i<k} (1/s_i) v_i v_i^T the trainer assembles. *)
+Theorem C15_zca_rank_deficient_projector_partial : forall d k V ev s r tv (D : @data (list Q)), ~ count D == 0 ->
+  (forall i j, (i < k)%nat -> (j < d)%nat -> eig_residual d V ev D i j == 0) ->
+  (forall i l, (i < k)%nat -> (l < k)%nat -> gram d V i l == delta i l) ->
+  (forall i, (i < k)%nat -> s i * s i == ev i /\ ~ s i == 0) -> r * r == tv ->
+  let W := zca_mat k V s r in
+  forall a c,
+    mean (lin d W (center_off d W D) a) D == 0 /\
+    cov (lin d W (center_off d W D) a) (lin d W (center_off d W D) c) D == tv * proj k V a c /\
+    proj k V a c == proj k V c a /\
+    sumn d (fun j => proj k V a j * proj k V j c) == proj k V a c.
+Proof. exact zca_rank_deficient_projector. Qed.
+Print Assumptions C15_zca_rank_deficient_projector_partial.
+
+(* ... and P is the projector onto the RANGE of the covariance when the remaining eigenvalues are zero *)
+Theorem C15_zca_projector_fixes_range_partial : forall d k V ev (C : nat -> nat -> Q) a l,
+  (forall i l, (i < k)%nat -> (l < k)%nat -> gram d V i l == delta i l) ->
+  (forall j l, C j l == sumn k (fun i => V j i * (ev i * V l i))) ->
+  sumn d (fun j => proj k V a j * C j l) == C a l.
+Proof. exact proj_fixes_range. Qed.
+Print Assumptions C15_zca_projector_fixes_range_partial.
+
+(* the points (1,0), (-1,0): covariance diag(1,0), one direction e_0 with variance 1 *)
+Example zca_hyp_satisfiable :
+  let D := [[[1; 0]; [-1; 0]]] in let V := fun j i : nat => if (j =? 0)%nat then 1 else 0 in
+  ~ count D == 0 /\ (forall j, (j < 2)%nat -> eig_residual 2 V (fun _ => 1) D 0 j == 0) /\ gram 2 V 0 0 == delta 0 0.
+Proof.
+  cbv zeta. split; [vm_compute; discriminate|]. split; [|vm_compute; reflexivity].
+  intros j Hj. destruct j as [|[|j]]; [vm_compute; reflexivity | vm_compute; reflexivity | lia].
 Qed.
 
 (* ---- PCA ---- *)
